@@ -29,14 +29,24 @@ ASSUMPTIONS = [
 
 @st.composite
 def case_strategy(draw):
-    if draw(st.booleans()):
+    k = draw(st.integers(0, 4))
+    if k <= 1:
         c = draw(scen.generic_write_case())
-    else:
+    elif k <= 3:
         c = draw(scen.rdflib_write_case())
+    else:
+        from props import c14
+
+        c = draw(c14.ns_case())
+        c["with_namespaces"] = True
     return c
 
 
 def write(case):
+    if case.get("with_namespaces"):
+        from props import c14
+
+        return c14.write(case, c14.build_source(case), True)
     if case["integration"] == "generic":
         return scen.write_generic(case)
     return scen.write_rdflib(case)
@@ -73,6 +83,27 @@ def body(case, acc):
             kind = res.error.kind
         return Violation(f"C03:invalid:{kind}", f"reference decoder rejects pyjelly output: {res.error}", case)
     got = [[list(T.norm(t)) for t in s] for s in res.statements]
+    if case.get("with_namespaces"):
+        from props import c14
+
+        truth = [] if case["entry"] == "flat_generator" else c14.truth_of(c14.build_source(case), case["integration"])
+        decl = [[e[1], list(e[2])] for e in res.prefixes]
+        if decl != [[p, list(i)] for p, i in truth]:
+            return Violation("C03:namespace-rows-differ", f"R reads declarations {decl!r}, source binds {truth!r}", case)
+        if res.options.get("version") != 2:
+            return Violation("C03:invalid:namespace-row-version", "namespace declarations enabled but version != 2", case)
+        if case["integration"] == "generic" or case["entry"] == "flat_generator":
+            conv = (lambda t: T.norm(t)) if case["integration"] == "generic" else (lambda t: T.norm(T.rdflib_canon(t)))
+            want = [[list(conv(t)) for t in s] for s in case["statements"]]
+            ok = got == want
+        else:
+            from vlib import pyj
+
+            ws = {T.norm_stmt(s) for s in pyj.sink_events(c14.build_source(case), "rdflib")}
+            ok = {T.norm_stmt(s) for s in res.statements} == ws
+        if not ok:
+            return Violation("C03:decodes-differently", "R decodes different statements (namespace case)", case)
+        return None
     if case["integration"] == "generic" or case["entry"] == "flat_to_file":
         if case["integration"] == "generic":
             want = scen.expected_generic(case)
